@@ -36,12 +36,14 @@ def main(argv=None):
             print('ANALYSIS-ERROR property=%s cannot read replay file: %s' % (pid, e))
             return 2
     try:
-        prog = frontend.Program(a.repo)
-        mod = importlib.import_module('vsa.rules.' + pid)
-        ctx = report.Ctx(pid, tier, prog, seed)
+        from . import engine
+        ctx = engine.decide(pid, a.repo, tier, seed, a.only)
+        prog = ctx.prog
         ctx.t0 = t_start
-        ctx.only = a.only
-        mod.run(ctx)
+        nf = ctx.extra.get('normal_form')
+        if nf:
+            print('normal form used for %s (%s); helpers analysed in their callers: %s' % (
+                ', '.join(nf['rules_decided_on_normal_form']), nf['reason'][:200], ', '.join(nf['helpers_absorbed'][:12]) or '-'))
         if a.only:
             ctx.rules = [r for r in ctx.rules if r.id == a.only or r.id.endswith('-' + a.only)]
             for r in ctx.rules:
